@@ -41,7 +41,8 @@ CHECKS = {
         "(also between a preceding doc block and its statement) and continuations; per entity the tracer sequence of doc_list, of the "
         "rendered HTML and the metadata are compared with the model, foreign or `zn` (ordinary comment) words are violations; bodies "
         "also go straight through MetaMarkdown.convert; an icontract post-condition on AdmonitionPreprocessor.run checks word "
-        "conservation and order.",
+        "conservation and order. Site-level family: complete runs (all entities displayed / default display, proc_internals on); every word of every "
+        "comment must be found, in order, on some generated page (internal procedures and their contents excepted).",
         "Trusts the model->expected mapping (docs attach to the statement they follow / precede); HTML structure is not compared.",
         "runtime monitoring: reference-model oracle over doc_list/doc/meta with tracer words + icontract on AdmonitionPreprocessor.run",
         "3/C03",
@@ -129,7 +130,8 @@ CHECKS = {
         "source opened for writing twice in one run; (b) icontract post-condition on NameSelector.get_name - (directory, lower-cased "
         "stem) -> item injective; (c) recorder on the `anchor` property - an anchor string that stands for two items and occurs on a "
         "page; (d) after the run: distinct page-owning entities have distinct URLs (case-insensitively), the page at an entity's URL "
-        "carries its tracer word, the source-file link of every page serves the defining file. Workload: projects built to collide (same names across modules/"
+        "carries its tracer word (the file at the percent-decoded URL must exist), the source-file link of every page serves the defining file; (e) icontract post-condition on the "
+        "`relurl` template filter - a link rendered for an entity leads to entity.get_url(); (f) two elements of a page that are not entity anchors and differ in content never share an id. Workload: projects built to collide (same names across modules/"
         "files/directories, letter-case variants, operator/assignment interfaces, generics with explicit bodies, unnamed programs/block "
         "data, submodule named like a module, separate module procedures named like procedures elsewhere, equal file base names). Thorough tier: the contract "
         "also runs under the repository's own test-suite (vf/pytest_contracts.py).",
@@ -161,7 +163,8 @@ CHECKS = {
         "the hop-wise ball of the model relation; edge endpoints must be nodes; untruncated forward/inverse graphs must be inverses; at "
         "the quiescent point after graph_all() the inverse adjacency sets of all node objects are checked for consistency; graph:false "
         "entities own no graphs. Private procedures under a display without `private` are not drawn (a call of one stands, transitively, for its calls). Two monitors on the "
-        "rendered output: a graph shown as a table has one row per first-hop edge, and every non-empty graph object is found on the page of its entity.",
+        "rendered output: a graph shown as a table has one row per first-hop edge, every non-empty graph object is found on the page of its entity, and every edge of the DOT "
+        "source is an edge of the drawn SVG (two arrowheads on one line count for an opposite pair).",
         "Per-entity graphs in which a graph:false entity takes part are not judged (documentation leaves it open); one known finding "
         "(graph:false entity drawn as a neighbour in project-wide graphs); no type-bound procedures; internal functions only as callers.",
         "runtime monitoring: reference-model oracle over captured DOT sources + invariant check at a quiescent hook",
